@@ -675,3 +675,17 @@ Proof.
   intros Hl Hpp Hlen. rewrite (x86_code_go' enc pp start l Hl Hpp Hlen).
   apply (go'_props enc (length l) l 0 (w32 start) (le_n _) Hl).
 Qed.
+
+(** the same from any filter state (prev_mask, prev_pos) whose mask, brought forward to the current position, is
+    consistent with the bytes ahead - the situation of a later call that continues where an earlier one stopped *)
+Theorem x86_go_roundtrip_consistent pm pp pos l : bytes_ok l -> pm < 256 -> pos < 4294967296 -> pp < 4294967296 ->
+  sub32' pos pp + lenN l < 4294967296 ->
+  WF (eff pm (sub32' pos pp)) = true -> Cons (eff pm (sub32' pos pp)) l ->
+  xo (x86_go tb false pm pp pos (xo (x86_go tb true pm pp pos l))) = l.
+Proof.
+  intros Hl Hpm Hpos Hpp Hlen W C.
+  rewrite (go_eq true (length l) l pm pp pos (sub32' pos pp) (le_n _) Hpm Hpos Hpp eq_refl Hlen).
+  destruct (go'_props true (length l) l (eff pm (sub32' pos pp)) pos (le_n _) Hl) as (L & O & _). cbv zeta in L, O.
+  rewrite (go_eq false (length l) _ pm pp pos (sub32' pos pp)); [|rewrite L; apply le_n|exact Hpm|exact Hpos|exact Hpp|reflexivity|unfold lenN in *; rewrite L; exact Hlen].
+  apply go'_rt with (n := length l); [lia|exact W|exact C|exact Hl|exact Hpos].
+Qed.
